@@ -2,7 +2,7 @@
   C02 — every stage descriptor of the driver, and every chain of them, has the closed form
   of the specification; sources that may be endless.
 -/
-import ALV.Lemmas.C02Rat
+import ALV.Lemmas.C02Aux
 namespace ALV.C02
 open ALV ALV.Stage
 variable {ι ο σ α : Type}
@@ -37,6 +37,7 @@ theorem hasNeed_build (d : Desc) (hv : d.Valid) : HasNeed (build d).st (needOf d
   | par n => exact (hasNeed_parN n).congr (fun _ => rfl)
   | cascade n => exact (hasNeed_cascadeN n).congr (fun _ => rfl)
   | resample order step => exact hasNeed_resampleS order step hv
+  | resampleTV order steps => exact hasNeed_resampleTVS order steps hv
   | smix delta =>
     exact (hasNeed_smixS delta ()).congr (fun k => by simp [needOf, smixStart_eq])
 
@@ -104,5 +105,48 @@ theorem Seq.take_take (s : Seq α) {j n : Nat} (h : j ≤ n) : (s.take n).take j
   · right
     have := Seq.take_length_le s j
     omega
+
+/-! ### both counters of the two-source machine under the generator protocol -/
+
+theorem cumSum_getElem : ∀ (l : List Nat) (a k : Nat), k < l.length →
+    (cumSum a l)[k]? = some (a + (l.take (k + 1)).sum)
+  | [], _, _, h => by simp at h
+  | c :: cs, a, 0, _ => by simp [cumSum]
+  | c :: cs, a, k + 1, h => by
+    simp only [cumSum, List.getElem?_cons_succ]
+    rw [cumSum_getElem cs (a + c) k (by simpa using h)]
+    simp [List.take_succ_cons]; omega
+
+theorem rsStep_run (order : Nat) (steps : List Rat) :
+    (rsStepS order).run steps = (rsStepS order).emit steps := by
+  simp [run, rsStepS]
+
+theorem rsStep_emit_length (order : Nat) (steps : List Rat) :
+    ((rsStepS order).emit steps).length = steps.length + 1 := by
+  simp only [emit, List.length_append, emitFrom_unit_length _ (rsStep_unit order)]
+  simp [rsStepS]; omega
+
+theorem rsTwoSource_getElem (order : Nat) (steps : List Rat) (hs : ∀ s ∈ steps, 0 ≤ s)
+    (K k : Nat) (hk : k < K) (hlen : k ≤ steps.length) :
+    (rsTwoSource order steps K)[k]? = some (needResampleTV order steps (k + 1), k) := by
+  have hp : ((rsStepS order).pulls steps K)[k]? = some k := by
+    have := pulls_of_hasNeed (hasNeed_rsStepS order) steps K k hk (by simp [auxNeedLag1]; exact hlen)
+    simpa [auxNeedLag1] using this
+  have ho : (rsStepS order).outs steps K = ((rsStepS order).emit steps).take K := by
+    rw [outs_eq, rsStep_run]
+  have hl := rsStep_emit_length order steps
+  have hc : (cumSum 0 ((rsStepS order).outs steps K))[k]? =
+      some (needResampleTV order steps (k + 1)) := by
+    rw [ho, cumSum_getElem _ _ _ (by rw [List.length_take, hl]; omega), List.take_take]
+    have hm : min (k + 1) K = k + 1 := by omega
+    rw [hm, Nat.zero_add]
+    have := rsStep_emit_sum order steps hs (k + 1)
+    rw [hl] at this
+    have hz : k + 1 - (steps.length + 1) = 0 := by omega
+    rw [hz, Nat.add_zero] at this
+    rw [this]
+  unfold rsTwoSource
+  rw [List.getElem?_zip_eq_some]
+  exact ⟨hc, hp⟩
 
 end ALV.C02
